@@ -129,7 +129,8 @@ def generate():
 
 class Scratch:
     def __enter__(self):
-        self.root = tempfile.mkdtemp(prefix='verif-C20-')
+        # one private directory per process (mkdtemp), so the children of the ambient sweep cannot collide
+        self.root = tempfile.mkdtemp(prefix='verif-C20-%s-' % (os.environ.get('VERIF_AMBIENT') or 'main'))
         self.files = {}
         self.n = 0
         self.locked = []
@@ -966,15 +967,29 @@ def ref_call(fn, *a):
     return None
 
 
+class _Sink:
+    def write(self, text):
+        return len(text)
+
+    def flush(self):
+        pass
+
+
 @contextlib.contextmanager
 def quiet_logging():
+    """save_and_reraise_exception logs the dropped exception on the ROOT logger.  Neither a level, nor
+    logging.disable, nor a filter is touched (the logging configuration is an input under the ambient sweep):
+    while the call runs the root logger only gets one more handler, which renders the record into a sink - that
+    keeps logging's last-resort handler off stderr when nothing else is configured."""
     import logging
-    old = logging.root.manager.disable
-    logging.disable(logging.CRITICAL)       # save_and_reraise_exception logs the dropped exception
+    root = logging.getLogger()
+    h = logging.StreamHandler(_Sink())
+    h.setFormatter(logging.Formatter('%(asctime)s %(name)s %(levelname)s %(message)s'))
+    root.addHandler(h)
     try:
         yield
     finally:
-        logging.disable(old)
+        root.removeHandler(h)
 
 
 def run_fs(sc, case):
@@ -1769,11 +1784,51 @@ def batches(cases, limit=24 * 2 ** 20):
         yield cur
 
 
+def _features(case, tag=None):
+    """the values that must stay represented when a child of the ambient sweep runs part of the cases"""
+    spec = case.get('exc') or case.get('fault') or ''
+    f = [('tag', '/'.join(tag.split('/')[:2]) if tag else None), ('op', case.get('op')), ('kind', case.get('kind')),
+         ('ctype', case.get('ctype')), ('where', case.get('where')), ('ptype', case.get('ptype')),
+         ('remove', case.get('remove')), ('via', case.get('via')), ('body', case.get('body')), ('rel', case.get('rel')),
+         ('alg', case.get('alg')), ('shape', spec.partition('@')[2] if spec else None),
+         ('spec', spec.split(':')[0] if spec else None), ('short', case.get('short') is not None),
+         ('steps', len(case['steps']) if 'steps' in case else None), ('big', case.get('size', 0) > 60000),
+         ('cs', str(case.get('cs')) if case.get('op') == 'checksum' else None)]
+    f += [('inject', k) for k in (case.get('inject') or {})]
+    if spec and '@' not in spec and spec in KEEP_SPECS:
+        f.append(('named-errno', (case.get('op'), spec, case.get('pathkind'), case.get('via'))))
+    return [x for x in f if x[1] is not None]
+
+
+KEEP_SPECS = ('ok', 'os:%d' % errno.ENOENT, 'os:%d' % errno.EEXIST, 'os:%d' % errno.EINVAL, 'os:N')
+AMBIENT_FRACTION = 0.3
+
+
+def thin(ctx, items):
+    """Main run: everything.  In a child of the ambient sweep (ctx.ambient set) about one third: a random part
+    (ctx.rng is seeded with the configuration name, so the children together still cover the list), topped up until
+    every generator family, operation, path kind, content type, path type, remover, algorithm, chunk argument,
+    exception shape, injected call and the errnos the code names are represented.  `items`: cases or (case, tag)."""
+    if not getattr(ctx, 'ambient', None):
+        return items
+    feats = [_features(*(it if isinstance(it, tuple) else (it, None))) for it in items]
+    order = list(range(len(items)))
+    ctx.rng.shuffle(order)
+    n = int(len(items) * AMBIENT_FRACTION)
+    keep = set(order[:n])
+    have = {f for i in keep for f in feats[i]}
+    for i in order[n:]:
+        if any(f not in have for f in feats[i]):
+            keep.add(i)
+            have.update(feats[i])
+    return [it for i, it in enumerate(items) if i in keep]
+
+
 def correspondence(ctx):
     out = []
     with Scratch() as sc:
         # 1. the chunk loop: real files, recording toy hash + the real algorithms
-        cases = gen_checksum(ctx)
+        cases = thin(ctx, gen_checksum(ctx))
         groups = {}
         for case, tag in cases:                                 # one request per content: all its chunk arguments
             key = (case['size'], case['seed'], bool(case.get('missing')), case['alg'] == 'nope')
@@ -1803,7 +1858,7 @@ def correspondence(ctx):
                 volume = 0
         flush()
         # 2. last_bytes, 3. decision tables
-        cases = gen_last_bytes(ctx) + gen_decisions(ctx)
+        cases = thin(ctx, gen_last_bytes(ctx) + gen_decisions(ctx))
         for batch in batches(cases):
             replies = ctx.driver.ask_many([l for _, _, l in batch])
             for (case, tag, _), rep in zip(batch, replies):
@@ -1811,7 +1866,7 @@ def correspondence(ctx):
         # 4. the real file system: the one-path model (missing/dir/file), and for every scenario the decision
         #    taken on the outcome of the real OS call (made on its own on a twin path, see run_fs) - this is what
         #    ties the default remover, which cannot be replaced by a stub, to the model
-        fs = gen_fs(ctx)
+        fs = thin(ctx, gen_fs(ctx))
         lines = [LINE[c['op']](c) if c['op'] != 'fs_rpoe' and c['kind'] in FS_MODEL_KINDS and
                  c.get('remove', 'default') in FS_MODEL_REMOVERS else None for c, _ in fs]
         replies = iter(ctx.driver.ask_many([l for l in lines if l]))
@@ -1838,7 +1893,7 @@ def correspondence(ctx):
                                         where='decision on the outcome of the real OS call'))
         # 6 (run first, before the bulk of part 5). call sequences: every API call of every sequence against the model
         seqs = []
-        for case, tag in gen_seq(ctx):
+        for case, tag in thin(ctx, gen_seq(ctx)):
             recs = run_seq(sc, case)
             ctx.evaluations += 1
             ctx.count('corr/' + tag)
@@ -1857,7 +1912,7 @@ def correspondence(ctx):
         # 5. write_to_tempfile: every bytes-like content type x sizes x path argument, and each of its three calls
         #    made to fail; the model request carries the bytes the object exposes and the outcomes of the calls
         runs = []
-        for case, tag in gen_tmpw(ctx):
+        for case, tag in thin(ctx, gen_tmpw(ctx)):
             r = run_tmpw(sc, case)
             if r is not None:
                 runs.append((case, tag, r[0], r[1]))
@@ -1953,7 +2008,7 @@ def search(ctx, seeds, full=False):
     listed = {f['id'] for f in common.load_findings().get('findings', []) if ID in f.get('properties', [])}
     kinds = set()
     with Scratch() as sc:
-        todo = [s for s in seeds[:300] if isinstance(s, dict) and s.get('op') in ORACLE] + gen_search(ctx, full)
+        todo = [s for s in seeds[:300] if isinstance(s, dict) and s.get('op') in ORACLE] + thin(ctx, gen_search(ctx, full))
         for case in todo:
             if is_n7(case) and N7 not in listed:
                 # reported to the coordinator; until it is listed the observation is only recorded
